@@ -6,6 +6,6 @@ CONSTANTS
   ProgLen = 3
   MaxChoices = {1, 2, 3}
   Limit = 5
-INVARIANTS StepBound SizeBound FatalOnlyOverflow NoErrUnlessFatal Emit
+INVARIANTS StepBound SizeBound FatalOnlyOverflow NoErrUnlessFatal RunAgrees Emit
 PROPERTIES Terminates Variant FailureIsNoop RecoverableContinues
 CHECK_DEADLOCK FALSE
